@@ -14,6 +14,7 @@ import CogentModel.Proofs.PhyloMidpoint
 import CogentModel.Proofs.PhyloMidSearch
 import CogentModel.Proofs.PhyloNewickStr
 import CogentModel.Proofs.PhyloNames
+import CogentModel.Proofs.PhyloNamesGen
 /-! # C09 — property theorems (tree transformations preserve tips, topology and path lengths)
 
 `PTree K`, `rerootAt`, `unrooted`, `sorted`, `getSubTree`, … : `Model/PhyloTree.lean`
@@ -644,5 +645,59 @@ theorem make_tree_names_root_collision :
 
 example : assignNames [some "x", some "x.2", some "x", none, some "edge.0", none, some "x"] =
     ["x", "x.2", "x.2.2", "edge.0", "edge.0.2", "edge.1", "x.3"] := by decide +kernel
+
+/-! ### 7. wave 3: translation tie of the naming code
+
+`Gen/C09Newick.lean` is re-translated on every run from `core/tree.py::TreeBuilder` (`__init__`'s dict literal and the whole body of
+`_unique_name`, statement by statement; conventions U1-U5 in `translator/c09_names2lean.py`).  The theorems below prove the
+generated definitions equal to the hand model for ALL dict states and labels, so `unique_names_nodup` is a statement about the
+translated code (`gen_unique_names_nodup`). -/
+
+/-- one unfolding of the generated recursion = one unfolding of the model's, given the tie one level down -/
+theorem gen_unique_name_rec_step (n : Nat) (ih : ∀ (u : Used) (s : String), s ≠ "" → CogentModel.Gen.C09Newick.uniqueNameRec n u (some s) = uniqueNameFuel n u s)
+    (u : Used) (l : Option String) :
+    CogentModel.Gen.C09Newick.uniqueNameRec (n + 1) u l = uniqueNameFuel (n + 1) u (CogentModel.Gen.C09Newick.pyOr l "edge") := by
+  rw [CogentModel.Gen.C09Newick.uniqueNameRec, uniqueNameFuel]
+  cases hg : usedGet u (CogentModel.Gen.C09Newick.pyOr l "edge") with
+  | none => simp [CogentModel.Gen.C09Newick.dHas, hg]
+  | some c =>
+    simp only [CogentModel.Gen.C09Newick.dHas, hg, Option.isSome_some, if_true, CogentModel.Gen.C09Newick.dGet, Option.getD_some, GenNames.usedGet_usedSet_same]
+    rw [ih _ _ (GenNames.suffixed_ne_empty _ _), String.append_assoc]
+
+/-- generated recursion = `uniqueNameFuel` at every fuel, every dict state, every non-empty candidate -/
+theorem gen_unique_name_rec_eq (fuel : Nat) : ∀ (u : Used) (s : String), s ≠ "" →
+    CogentModel.Gen.C09Newick.uniqueNameRec fuel u (some s) = uniqueNameFuel fuel u s := by
+  induction fuel with
+  | zero => intro u s _; simp [CogentModel.Gen.C09Newick.uniqueNameRec, uniqueNameFuel]
+  | succ n ih =>
+    intro u s hs
+    rw [gen_unique_name_rec_step n ih, GenNames.pyOr_some s hs]
+
+/-- generated `_unique_name` = hand model, for every dict state and every label (None, "", any str) -/
+theorem gen_unique_name_eq (u : Used) (l : Option String) :
+    CogentModel.Gen.C09Newick.uniqueName u l = CogentModel.Phylo.uniqueName u l := by
+  unfold CogentModel.Gen.C09Newick.uniqueName CogentModel.Phylo.uniqueName
+  rw [gen_unique_name_rec_step _ (gen_unique_name_rec_eq _)]
+  cases l with
+  | none => rfl
+  | some s => by_cases h : s = "" <;> simp [CogentModel.Gen.C09Newick.pyOr, h]
+
+/-- generated initial dict of `TreeBuilder.__init__` = the one `assignNames` starts from -/
+theorem gen_used_names_init_eq : CogentModel.Gen.C09Newick.usedNamesInit = [("edge", -1)] := rfl
+
+/-- folding the GENERATED `_unique_name` from the GENERATED initial dict over any label list = `assignNames` -/
+theorem gen_assign_names_eq (labels : List (Option String)) :
+    genAssignFrom CogentModel.Gen.C09Newick.usedNamesInit labels = assignNames labels := by
+  unfold assignNames
+  rw [gen_used_names_init_eq]
+  generalize ([("edge", -1)] : Used) = u
+  induction labels generalizing u with
+  | nil => rfl
+  | cons l ls ih => simp only [genAssignFrom, assignFrom, gen_unique_name_eq, ih]
+
+/-- hence the translated code hands out pairwise distinct names for ANY list of labels -/
+theorem gen_unique_names_nodup (labels : List (Option String)) :
+    (genAssignFrom CogentModel.Gen.C09Newick.usedNamesInit labels).Nodup := by
+  rw [gen_assign_names_eq]; exact assignNames_nodup labels
 
 end CogentModel.C09
